@@ -28,6 +28,13 @@ def make(rng, tier):
                          "alive"])
         sc.kind = "stress"
         scs.append(sc)
+    # many keys: merge passes over several hundred live entries while clients overwrite them (seed C11-D shape)
+    for i in range({"quick": 2, "thorough": 12}[tier]):
+        r = rng.fork()
+        sc = N.Scenario("wide%d" % i, "maxconn=16 mfs=%d conc=4 frag=0/1 dead=0 small=1000000000" % r.choice([4000, 2 ** 31]),
+                        ["clients 6 400 700 %d %d" % (r.rng(1, 10 ** 6), r.choice([2, 5])), "alive"])
+        sc.kind = "stress"
+        scs.append(sc)
     # a SET parked between its append and its publication while a merge wants to run, then a GET from another client (seed C11-A)
     sc = N.Scenario("set-vs-merge", "maxconn=8 mfs=60 frag=0/1 dead=0 small=1000000000",
                     ["conn a", "conn b", "send a %s" % SET(b"k", b"v1"), "recv a 5 3000", "parkany put:before_publish 400 1",
@@ -89,7 +96,7 @@ def main(tier, seed):
         "trusted_base": TRUSTED,
         "evaluations": len(scs), "operations": nops, "distinct_nontrivial": len(scs),
         "rule": "stress: 3-8 concurrent connections, 40-80 commands each on 1-3 hot keys (unique values up to 9000 bytes), merges every "
-                "0/3/10 ms, max_file_size 200/3000/2^31; send and receive instants recorded at the client; per-key Wing-Gong-Lowe "
+                "0/3/10 ms, max_file_size 200/3000/2^31; wide runs with 6 connections over 700 keys and merges every 2-5 ms; send and receive instants recorded at the client; per-key Wing-Gong-Lowe "
                 "search against the map; plus two scheduled scenarios (SET vs merge, DEL vs DEL) using timed parking inside the store",
         "samples": [scs[0].ops[0], (scs[0].out or [])[1:4]],
         "proof": {"file": "coq/Props/C11.v", "theorems": pr["theorems"], "axioms": pr["axioms"]},
